@@ -65,3 +65,11 @@ CHECKS["C13"] = dict(
     assumptions=["retry steps go through the synchronous hook that pops the next parked vertex and calls the real admission path; the real 2 s ticker keeps running and may add a legal extra retry",
                  "schedules stay inside the promised bounds (<=24 retries per vertex, far fewer than 500 parked)"],
 )
+
+CHECKS["C07"] = dict(
+    test="TestC07", level="exploration",
+    common=dict(shrinktime="1s", env={"GOMEMLIMIT": "3GiB"}),
+    quick=dict(shards=14, checks=7, timeout=1200),
+    thorough=dict(shards=16, checks=60, timeout=3400),
+    assumptions=_LEDGER_ASSUME + ["truncation is triggered through the hook calling the real truncate synchronously; truncation racing with proposals is sampled by C18's workload only"],
+)
